@@ -143,6 +143,7 @@ def check(run):
                        "orientation convention: 'below' is iy + 1 (as the variable names document)"]
     run.functions = 2
     _stencils(run, prog, mi)
+    _spacing_axes(run, mi)
     _admt(run, prog, mi)
     from ..cachekey import check_caches
     check_caches(run, [mi], 'C20-K')
@@ -270,6 +271,78 @@ class AdmtEval(SymEval):
                 return a * b
             return L('matmul(%s,%s)' % (ka, kb))
         return super().ev(n)
+
+
+def _spacing_axes(run, mi):
+    """R1a: dx is computed from quantities of the x axis only and dy from the y axis only.  Axis tags: column k of the cell
+    centres / their differences, component k of the (ix, iy) grid indices (and of reductions over them along axis 0)."""
+    run.describe('C20-R1a', 'voxel spacings: dx derives from x-axis quantities only, dy from y-axis quantities only')
+    fn = mi.functions['generate_derivative_operators']
+    K = 'cherab.tools.inversions.admt_utils|generate_derivative_operators|'
+    tags = {}          # name -> set of axes, or list of per-component sets for 2-vectors
+
+    def tag(e):
+        if isinstance(e, ast.Name):
+            t = tags.get(e.id)
+            if isinstance(t, list):
+                return set().union(*t)
+            return set(t or ())
+        if isinstance(e, ast.Subscript):
+            sl = e.slice
+            if isinstance(sl, ast.Tuple) and len(sl.elts) == 2 and isinstance(sl.elts[1], ast.Constant) and sl.elts[1].value in (0, 1) \
+                    and isinstance(e.value, ast.Name) and tags.get(e.value.id) == 'points':
+                return {sl.elts[1].value}
+            if isinstance(e.value, ast.Name) and isinstance(tags.get(e.value.id), list) and isinstance(sl, ast.Constant) and sl.value in (0, 1):
+                return set(tags[e.value.id][sl.value])
+            return tag(e.value)
+        out = set()
+        for c in ast.iter_child_nodes(e):
+            if isinstance(c, ast.expr):
+                out |= tag(c)
+        return out
+
+    def vec(e):
+        """per-component tags of an expression that is a 2-vector of (x-ish, y-ish) quantities, else None"""
+        if isinstance(e, ast.Call):
+            d = dotted(e.func) or ''
+            ax = [k.value for k in e.keywords if k.arg == 'axis']
+            if d in ('np.max', 'np.min', 'np.amax', 'np.amin', 'np.ptp', 'np.mean') and ax and isinstance(ax[0], ast.Constant) and ax[0].value == 0 and e.args:
+                a0 = e.args[0]
+                if any(isinstance(x, ast.Call) and isinstance(x.func, ast.Attribute) and x.func.attr == 'values' and 'index' in norm(x.func.value) for x in ast.walk(a0)):
+                    return [{0}, {1}]
+                if isinstance(a0, ast.Name) and tags.get(a0.id) == 'points':
+                    return [{0}, {1}]
+        if isinstance(e, ast.BinOp):
+            l, r = vec(e.left), vec(e.right)
+            return l or r
+        if isinstance(e, ast.Subscript) and isinstance(e.value, ast.Name) and 'index' in e.value.id and 'map' in e.value.id:
+            return [{0}, {1}]
+        return None
+    for st in sorted([x for x in ast.walk(fn) if isinstance(x, ast.Assign)], key=lambda x: x.lineno):
+        t, v = st.targets[0], st.value
+        if isinstance(t, ast.Name):
+            if isinstance(v, ast.Call) and dotted(v.func) in ('np.mean', 'np.diff', 'np.asarray', 'np.array') and v.args and (
+                    norm(v.args[0]) in ('voxel_vertices',) or (isinstance(v.args[0], ast.Name) and tags.get(v.args[0].id) == 'points')):
+                tags[t.id] = 'points'
+                continue
+            vv = vec(v)
+            tags[t.id] = vv if vv is not None else tag(v)
+        elif isinstance(t, ast.Tuple) and len(t.elts) == 2 and all(isinstance(x, ast.Name) for x in t.elts):
+            vv = vec(v)
+            if vv is not None:
+                tags[t.elts[0].id], tags[t.elts[1].id] = vv
+    for nm, want in (('dx', 0), ('dy', 1)):
+        run.subject('C20-R1a')
+        got = tags.get(nm)
+        got = set().union(*got) if isinstance(got, list) else (set(got) if isinstance(got, set) else set())
+        if got == {want}:
+            run.ok('C20-R1a', nm, 'depends on axis %d quantities only' % want)
+        elif got and got != {want}:
+            run.fail('C20-R1a', K + 'spacing-axis:' + nm, FILE, fn.lineno,
+                     "%s is computed from quantities of axis %s (0 = x / first grid index, 1 = y / second grid index): it mixes the axes, so the operators "
+                     "are mis-scaled on any grid that is not square" % (nm, sorted(got)))
+        else:
+            run.undecided('C20-R1a', nm, 'no axis-tagged quantity found in its definition')
 
 
 def _admt(run, prog, mi):
@@ -400,6 +473,7 @@ def _admt(run, prog, mi):
 
 
 MUTANTS = [
+    dict(name='dx-from-y-differences', file=FILE, find="    dx = cell_sizes[:, 0]\n    dy = cell_sizes[:, 1]", replace="    dx = cell_sizes[:, 1]\n    dy = cell_sizes[:, 0]", expect='C20-R1a'),
     dict(name='stencil-coefficient', file=FILE, find="            Dx[ith_cell, n_left] = -1 / 2", replace="            Dx[ith_cell, n_left] = -1 / 4", expect='C20-R1'),
     dict(name='stencil-neighbour-flipped', file=FILE, find="n_below = grid_index_2d_to_1d_map[ix, iy + 1]", replace="n_below = grid_index_2d_to_1d_map[ix, iy - 1]", expect='C20-R1'),
     dict(name='corner-mixed-sign', file=FILE, find="        if top_right:\n            Dxy[ith_cell, ith_cell] = 1", replace="        if top_right:\n            Dxy[ith_cell, ith_cell] = -1", expect='C20-R1'),
